@@ -529,7 +529,9 @@ def main(argv=None):
 
             with open(os.path.join(VERIF_DIR, "vlib", "EVIDENCE.schema.json")) as fh:
                 schema = json.load(fh)
-            if not harness_errors:
+            # (a run in which every case violates has no non-trivial passing cases; report the
+            #  violations rather than an evidence-schema error)
+            if not harness_errors and not viol_unlisted:
                 jsonschema.validate(evidence, schema)
         except ImportError:
             pass
